@@ -313,7 +313,8 @@ func (c *Checker) checkC03Msg(msg sdk.Msg, ok bool) {
 	}
 	// fills: seller → batch → quantity bought by this (successful) BuyDirect; seller → ask denom → exact payment
 	fills := map[BalKey]*big.Rat{}
-	pay := map[string]map[string]*big.Rat{}
+	pay := map[string]map[string]*big.Rat{}      // exact payments
+	payFloor := map[string]map[string]*big.Int{} // Σ floor(exact payment of one order): whole units owed at least
 	if bd, isBuy := msg.(*market.MsgBuyDirect); isBuy && ok {
 		sr, _ := MsgAmount(c.pre.SellerFee)
 		if sr == nil {
@@ -332,23 +333,23 @@ func (c *Checker) checkC03Msg(msg sdk.Msg, ok bool) {
 			fills[k].Add(fills[k], q)
 			if m := c.pre.Markets[so.Market]; m != nil && so.Ask != nil {
 				if pay[so.Seller] == nil {
-					pay[so.Seller] = map[string]*big.Rat{}
+					pay[so.Seller], payFloor[so.Seller] = map[string]*big.Rat{}, map[string]*big.Int{}
 				}
 				if pay[so.Seller][m.Denom] == nil {
-					pay[so.Seller][m.Denom] = zero()
+					pay[so.Seller][m.Denom], payFloor[so.Seller][m.Denom] = zero(), new(big.Int)
 				}
 				subt := mul(q, ratInt(so.Ask))
-				pay[so.Seller][m.Denom].Add(pay[so.Seller][m.Denom], sub(subt, mul(subt, sr)))
+				one := sub(subt, mul(subt, sr))
+				pay[so.Seller][m.Denom].Add(pay[so.Seller][m.Denom], one)
+				if one.Sign() > 0 {
+					payFloor[so.Seller][m.Denom].Add(payFloor[so.Seller][m.Denom], floorRat(one))
+				}
 			}
 		}
 	}
 	_, isFeePoolSend := msg.(*market.MsgGovSendFromFeePool)
 
 	// credits
-	keys := map[BalKey]bool{}
-	for k := range c.pre.Balances {
-		keys[k] = true
-	}
 	for _, k := range c.pre.SortedBalKeys() {
 		if signers[k.Acct] {
 			continue
@@ -374,7 +375,8 @@ func (c *Checker) checkC03Msg(msg sdk.Msg, ok bool) {
 		for _, d := range sortedStr(pay[s]) {
 			delta := new(big.Int).Sub(c.post.BankOf(s, d), c.pre.BankOf(s, d))
 			exact := pay[s][d]
-			if delta.Sign() < 0 || (delta.Sign() == 0 && exact.Cmp(big.NewRat(1, 1)) >= 0) {
+			// every order is settled in whole units (rounded down), so only Σ floor(payment) is owed for sure
+			if delta.Sign() < 0 || (delta.Sign() == 0 && payFloor[s][d].Sign() > 0) {
 				c.report("C03", "seller-not-paid", fmt.Sprintf("seller %s lost escrowed credits to a fill but its %s balance changed by %s (exact payment %s)", s, d, delta, ratStr(exact)), nil)
 			} else if delta.Sign() == 0 {
 				c.Counters["dust_fill_paid_zero"]++
